@@ -142,6 +142,8 @@ def nested_oracle(run: Run):
                       attr=attr)
     for s in res["foreign"]:
         run.violation(s, dict(oracle="nested", what=s), kind="foreign-atom")
+    for s in res.get("restored", [])[:10]:
+        run.violation(s, dict(oracle="nested", what=s), kind="pickle-not-restored")
     for s in res.get("differs", [])[:10]:
         run.violation("a freshly initialised private table does not serve the public value (%d differences): %s"
                       % (res.get("ndiffers", 0), s), dict(oracle="nested", what=s), kind="private-differs")
